@@ -70,6 +70,8 @@ def _build_unit(args):
     obs = [(o.name, discharge.to_smt2(o, cx.axioms), _clean(o.meta))
            for o in cx.obligations]
     covs = [(c.name, discharge.to_smt2_cover(c, cx.axioms)) for c in cx.covers]
+    info['branch_cov'] = sorted(getattr(mod, '_branch_cov', lambda: [])())
+    info['branch_all'] = sorted(getattr(mod, '_branch_all', lambda: [])())
     return dict(unit=unit, obligations=obs, covers=covs, info=info,
                 assumptions=list(cx.assumptions), build_s=time.time() - t0,
                 lib=sorted(npmodel.LIB_USED))
@@ -131,6 +133,10 @@ def run_property(prop, tier='quick', seed=0):
             for x in bi.get(key, []):
                 if x not in info.setdefault(key, []):
                     info[key].append(x)
+        info.setdefault('branch_cov', set()).update(
+            tuple(x) for x in bi.get('branch_cov', []))
+        info.setdefault('branch_all', set()).update(
+            tuple(x) for x in bi.get('branch_all', []))
         for x in b['assumptions']:
             cx.assume_tag(x)
         info['build_s'][str(b['unit'])] = round(b['build_s'], 1)
@@ -139,6 +145,24 @@ def run_property(prop, tier='quick', seed=0):
         print('CHECKER-ERROR property={}\n{}'.format(prop, error))
         write_evidence(prop, tier, seed, cx, [], [], info, time.time() - t0,
                        error=error)
+        return 3
+    # branch coverage of the symbolic execution: a branch of a function under
+    # contract that no path takes means a pruned (possibly vacuous) path
+    dead_ok = set(getattr(mod, 'DEAD_BRANCHES', ()))
+    unc = sorted(x for x in info.get('branch_all', set())
+                 - info.get('branch_cov', set())
+                 if not any(x[0].endswith('.' + d[0]) and x[1] == d[1]
+                            and x[2] == d[2] for d in dead_ok)
+                 and x[0] in getattr(mod, 'BRANCH_COVERED_FUNCTIONS', ()))
+    info['uncovered_branches'] = ['{}: `{}` -> {}'.format(*x) for x in unc]
+    info['branch_cov'] = len(info.get('branch_cov', ()))
+    info['branch_all'] = len(info.get('branch_all', ()))
+    if unc:
+        print('CHECKER-ERROR property={} branches never executed '
+              'symbolically (vacuity guard): {}'.format(
+                  prop, info['uncovered_branches']))
+        write_evidence(prop, tier, seed, cx, [], [], info, time.time() - t0,
+                       error='uncovered branches')
         return 3
     floor = getattr(mod, 'OBLIGATION_FLOOR', 1)
     if len(obs) < floor:
@@ -288,6 +312,10 @@ def write_evidence(prop, tier, seed, cx, results, covers, info, wall,
         library_models_used=sorted(npmodel.LIB_USED),
         dropped_by_extraction=DROPPED,
         notes=info.get('notes', []),
+        branch_coverage=dict(executed=info.get('branch_cov'),
+                             total=info.get('branch_all'),
+                             uncovered=info.get('uncovered_branches', [])),
+        build_s=info.get('build_s'),
     )
     if error:
         cov['error'] = error[-2000:]
